@@ -868,3 +868,175 @@ Proof.
   { destruct r as [|a0 [k|]]; inversion H; subst; auto. }
   eapply resolve4_staked; eauto.
 Qed.
+
+(* ---------------------------------------------------------------- staking, generically (any family) *)
+Lemma on_pool_frame v st f k mk st' o g : on_pool v st f k mk = Some (st', o) -> f <> g -> r_allocs st' g = r_allocs st g.
+Proof.
+  unfold on_pool. intros H N.
+  destruct (assoc_find key_eqb k (r_allocs st f)) as [[ac ps]|]; [|discriminate].
+  destruct (mk ac); [|discriminate].
+  destruct (pool_step v (acfg_pool ac) ps c) as [[ps' o']|]; [|discriminate].
+  inversion H; subst. rewrite allocs_set.
+  destruct (rfam_eqb f g) eqn:E; [apply rfam_eqb_eq in E; contradiction | reflexivity].
+Qed.
+
+(* an answer of Allocate*FromProfile is, afterwards, leased to the session in the answering allocator *)
+Lemma alloc_staked v st f pf ov vrf s obs st' k o :
+  reg_step v st (RAlloc f pf ov vrf s obs) = Some (st', ROAns k o) ->
+  (exists ac ps' a, assoc_find key_eqb k (r_allocs st' f) = Some (ac, ps') /\
+                    aobs_key v ac o = Some a /\ lm_lookup a (leases ps') = Some s) /\
+  (forall g, f <> g -> r_allocs st' g = r_allocs st g).
+Proof.
+  intros H. cbn [reg_step] in H.
+  destruct (alloc_target v st f pf ov vrf) as [t|]; destruct obs as [[k' o']|]; try discriminate.
+  destruct (key_eqb t k') eqn:EK; [|discriminate].
+  destruct (on_pool v st f t (mk_alloc v s o')) as [[st2 o2]|] eqn:OP; [|discriminate].
+  inversion H; subst; clear H. split; [|intros g N; eapply on_pool_frame; eauto].
+  destruct (on_pool_ledger _ _ _ _ _ _ _ OP) as [ac [ps0 [ps' [pc [A0 [MK [A1 L]]]]]]].
+  unfold mk_alloc in MK. destruct (aobs_key v ac o) as [a|] eqn:AK; [|discriminate]. inversion MK; subst pc.
+  exists ac, ps', a. split; [exact A1|]. split; [exact AK|].
+  (* the pool call answered OAddr a *)
+  unfold on_pool in OP. rewrite A0 in OP. unfold mk_alloc in OP. rewrite AK in OP. cbn [pool_step] in OP.
+  destruct (mem_addr a (free ps0)); [|discriminate]. inversion OP; subst.
+  rewrite L. cbn [ledger_step]. rewrite lm_lookup_insert, addr_eqb_refl. reflexivity.
+Qed.
+
+Lemma acontains_akey v ac x : acontains v ac x = true -> exists a, akey v ac x = Some a.
+Proof.
+  destruct ac as [c|c], x as [a|p]; simpl; try discriminate.
+  - unfold contains. destruct (norm a) as [b|]; [eauto | discriminate].
+  - destruct (prefix_to_index v c p) as [i|]; [eauto | discriminate].
+Qed.
+
+(* a granted Reserve* walk: leased to the session in the allocator the walk stopped at, or no allocator
+   of the family contains the value and nothing changed *)
+Lemma reserve_staked v st f x s w st' :
+  reg_step v st (RReserve f x s w) = Some (st', ROOk) ->
+  ((exists k ac ps' a, assoc_find key_eqb k (r_allocs st' f) = Some (ac, ps') /\
+                       akey v ac x = Some a /\ lm_lookup a (leases ps') = Some s) \/
+   (st' = st /\ forall e, In e (r_allocs st f) -> acontains v (fst (snd e)) x = false)) /\
+  (forall g, f <> g -> r_allocs st' g = r_allocs st g).
+Proof.
+  intros H. cbn [reg_step] in H. unfold walk in H. destruct w as [k|].
+  - destruct (assoc_find key_eqb k (r_allocs st f)) as [[ac ps]|] eqn:A; [|discriminate].
+    destruct (acontains v ac x) eqn:C; [|discriminate].
+    destruct (on_pool v st f k (mk_reserve v x s)) as [[st2 o2]|] eqn:OP; [|discriminate].
+    injection H as Est Eo. subst st2. split; [|intros g N; eapply on_pool_frame; eauto].
+    destruct (on_pool_ledger _ _ _ _ _ _ _ OP) as [ac' [ps0 [ps' [pc [A0 [MK [A1 L]]]]]]].
+    rewrite A in A0. inversion A0; subst ac' ps0.
+    destruct (acontains_akey _ _ _ C) as [a AK].
+    unfold mk_reserve in MK. rewrite AK in MK. inversion MK; subst pc.
+    left. exists k, ac, ps', a. split; [exact A1|]. split; [exact AK|].
+    destruct o2; try discriminate Eo. rewrite L. cbn [ledger_step].
+    rewrite lm_lookup_insert, addr_eqb_refl. reflexivity.
+  - destruct (existsb _ _) eqn:X; [discriminate|]. inversion H; subst. split; [|reflexivity].
+    right. split; [reflexivity|]. intros e He.
+    destruct (acontains v (fst (snd e)) x) eqn:C; [|reflexivity].
+    assert (existsb (fun e0 => acontains v (fst (snd e0)) x) (r_allocs st' f) = true)
+      by (apply existsb_exists; exists e; auto). congruence.
+Qed.
+
+(* ResolveV6: whatever address or prefix the context carries after a call that did not return nil is
+   leased to the calling session (IA_NA address in an IA_NA allocator, prefix in a PD allocator) through
+   the allocation or reservation this very call made, or no allocator of that family contains it *)
+Definition staked (v : variant) (st' : rstate) (f : rfam) (s : sid) (x : rarg) : Prop :=
+  exists k ac ps' a, assoc_find key_eqb k (r_allocs st' f) = Some (ac, ps') /\
+                     akey v ac x = Some a /\ lm_lookup a (leases ps') = Some s.
+Definition staked_ans (v : variant) (st' : rstate) (f : rfam) (s : sid) (o : gobs) : Prop :=
+  exists k ac ps' a, assoc_find key_eqb k (r_allocs st' f) = Some (ac, ps') /\
+                     aobs_key v ac o = Some a /\ lm_lookup a (leases ps') = Some s.
+Definition unmanaged (v : variant) (st : rstate) (f : rfam) (x : rarg) : Prop :=
+  forall e, In e (r_allocs st f) -> acontains v (fst (snd e)) x = false.
+
+Lemma resolve6_staked v st pf naov pdov vrf s hna hpd ona opd wna wpd st' r :
+  resolve6 v st pf naov pdov vrf s hna hpd ona opd wna wpd = Some (st', r) -> r6_nil r = false ->
+  (forall a, r6_na r = Some a ->
+     match hna with
+     | None => staked_ans v st' FNA s (OA a)
+     | Some b => b = a /\ (staked v st' FNA s (RA (Some a)) \/ unmanaged v st FNA (RA (Some a)))
+     end) /\
+  (forall o, r6_pd r = Some o -> hpd = None /\ staked_ans v st' FPD s o) /\
+  (forall p, hpd = Some p -> staked v st' FPD s (RP p) \/ unmanaged v st FPD (RP p)).
+Proof.
+  unfold resolve6. intros H NN.
+  (* IA_NA part *)
+  set (r1 := match hna with None => _ | Some a => _ end) in H.
+  assert (R1 : forall st1 b na np, r1 = Some (st1, b, na, np) ->
+            r_allocs st1 FPD = r_allocs st FPD /\
+            (b = false -> forall a, na = Some a ->
+               match hna with
+               | None => staked_ans v st1 FNA s (OA a)
+               | Some b0 => b0 = a /\ (staked v st1 FNA s (RA (Some a)) \/ (st1 = st /\ unmanaged v st FNA (RA (Some a))))
+               end)).
+  { unfold r1. intros st1 b na np E. destruct hna as [a0|].
+    - destruct (reg_step v st (RReserve FNA (RA (Some a0)) s wna)) as [[sx o]|] eqn:E1; [|discriminate].
+      destruct o; inversion E; subst; clear E.
+      + destruct (reserve_staked _ _ _ _ _ _ _ E1) as [S F]. split; [apply F; discriminate|].
+        intros _ a Ha. inversion Ha; subst a. split; [reflexivity|].
+        destruct S as [[k [ac [ps' [a' [A [K L]]]]]]|[-> U]]; [left; exists k, ac, ps', a'; auto | right; auto].
+      + split; [|discriminate].
+        cbn [reg_step] in E1. unfold walk in E1. destruct wna as [k|].
+        * destruct (assoc_find key_eqb k (r_allocs st FNA)) as [[ac ps]|]; [|discriminate].
+          destruct (acontains v ac (RA (Some a0))); [|discriminate].
+          destruct (on_pool v st FNA k (mk_reserve v (RA (Some a0)) s)) as [[s2 o2]|] eqn:OP; [|discriminate].
+          inversion E1; subst. eapply on_pool_frame; eauto. discriminate.
+        * destruct (existsb _ _); inversion E1; subst; reflexivity.
+    - destruct (reg_step v st (RAlloc FNA pf naov vrf s ona)) as [[sx o]|] eqn:E1; [|discriminate].
+      destruct o as [k g| | | | | |]; try discriminate.
+      + destruct g as [a1|]; [|discriminate]. inversion E; subst; clear E.
+        destruct (alloc_staked _ _ _ _ _ _ _ _ _ _ _ E1) as [S F]. split; [apply F; discriminate|].
+        intros _ a Ha. inversion Ha; subst a. destruct S as [ac [ps' [a' [A [K L]]]]]. exists k, ac, ps', a'. auto.
+      + inversion E; subst; clear E. split; [|intros _ a Ha; discriminate].
+        cbn [reg_step] in E1. destruct (alloc_target v st FNA pf naov vrf); destruct ona as [[? ?]|]; try discriminate.
+        * destruct (key_eqb k k0); [|discriminate]. destruct (on_pool _ _ _ _ _) as [[? ?]|]; discriminate.
+        * inversion E1; subst; reflexivity. }
+  destruct r1 as [[[[st1 b] na] np]|]; [|discriminate].
+  destruct (R1 _ _ _ _ eq_refl) as [FR NA]. clear R1.
+  destruct b.
+  { inversion H; subst. discriminate NN. }
+  specialize (NA eq_refl).
+  (* PD part *)
+  set (r2 := match hpd with None => _ | Some p => _ end) in H.
+  assert (R2 : forall st2 b pd pp, r2 = Some (st2, b, pd, pp) ->
+            r_allocs st2 FNA = r_allocs st1 FNA /\
+            (b = false ->
+             (forall o, pd = Some o -> hpd = None /\ staked_ans v st2 FPD s o) /\
+             (forall p, hpd = Some p -> staked v st2 FPD s (RP p) \/ unmanaged v st1 FPD (RP p)))).
+  { unfold r2. intros st2 b pd pp E. destruct hpd as [p0|].
+    - destruct (reg_step v st1 (RReserve FPD (RP p0) s wpd)) as [[sx o]|] eqn:E1; [|discriminate].
+      destruct o; inversion E; subst; clear E.
+      + destruct (reserve_staked _ _ _ _ _ _ _ E1) as [S F]. split; [apply F; discriminate|].
+        intros _. split; [intros o Ho; discriminate|]. intros p Hp. inversion Hp; subst p.
+        destruct S as [[k [ac [ps' [a' [A [K L]]]]]]|[-> U]]; [left; exists k, ac, ps', a'; auto | right; auto].
+      + split; [|discriminate].
+        cbn [reg_step] in E1. unfold walk in E1. destruct wpd as [k|].
+        * destruct (assoc_find key_eqb k (r_allocs st1 FPD)) as [[ac ps]|]; [|discriminate].
+          destruct (acontains v ac (RP p0)); [|discriminate].
+          destruct (on_pool v st1 FPD k (mk_reserve v (RP p0) s)) as [[s2 o2]|] eqn:OP; [|discriminate].
+          inversion E1; subst. eapply on_pool_frame; eauto. discriminate.
+        * destruct (existsb _ _); inversion E1; subst; reflexivity.
+    - destruct (reg_step v st1 (RAlloc FPD pf pdov vrf s opd)) as [[sx o]|] eqn:E1; [|discriminate].
+      destruct o as [k g| | | | | |]; try discriminate.
+      + inversion E; subst; clear E.
+        destruct (alloc_staked _ _ _ _ _ _ _ _ _ _ _ E1) as [S F]. split; [apply F; discriminate|].
+        intros _. split; [|intros p Hp; discriminate].
+        intros o Ho. inversion Ho; subst o. split; [reflexivity|].
+        destruct S as [ac [ps' [a' [A [K L]]]]]. exists k, ac, ps', a'. auto.
+      + inversion E; subst; clear E. split.
+        * cbn [reg_step] in E1. destruct (alloc_target v st1 FPD pf pdov vrf); destruct opd as [[? ?]|]; try discriminate.
+          -- destruct (key_eqb k k0); [|discriminate]. destruct (on_pool _ _ _ _ _) as [[? ?]|]; discriminate.
+          -- inversion E1; subst; reflexivity.
+        * intros _. split; [intros o Ho; discriminate | intros p Hp; discriminate]. }
+  destruct r2 as [[[[st2 b] pd] pp]|]; [|discriminate].
+  destruct (R2 _ _ _ _ eq_refl) as [FR2 PD]. clear R2.
+  inversion H; subst; clear H. cbn [r6_nil r6_na r6_pd] in *.
+  destruct b; [discriminate NN|]. specialize (PD eq_refl). destruct PD as [PD1 PD2].
+  split; [|split].
+  - intros a Ha. specialize (NA a Ha). destruct hna as [b0|].
+    + destruct NA as [-> [S|[_ U]]]; split; try reflexivity; [left | right; exact U].
+      destruct S as [k [ac [ps' [a' [A K]]]]]. exists k, ac, ps', a'. rewrite FR2. auto.
+    + destruct NA as [k [ac [ps' [a' [A K]]]]]. exists k, ac, ps', a'. rewrite FR2. auto.
+  - exact PD1.
+  - intros p Hp. destruct (PD2 p Hp) as [S|U]; [left; exact S | right].
+    intros e He. apply U. rewrite FR. exact He.
+Qed.
